@@ -33,6 +33,16 @@ try:
     det = "\n".join(lines)
 except FileNotFoundError:
     det = "(not run yet)"
+extra = []
+for name, fmt in (("selftest-seeded", lambda d: f"`./check selftest-seeded`: {d['changes']} independent changes re-applied to scratch copies, {d['not_as_documented']} not as documented in their meta.json ({d['wall_s']} s)."),
+                  ("selftest-refactorings", lambda d: f"`./check selftest-refactorings`: {d['refactorings']} behaviour-preserving refactorings x 5 checks, {d['false_alarms']} false alarms, {d['harness_errors']} harness errors ({d['wall_s']} s)."),
+                  ("selftest-poolfidelity", lambda d: f"`./check selftest-poolfidelity`: {d['cases']} cases with real worker processes vs SimPool vs serial, {len(d['mismatches'])} mismatches ({d['wall_s']} s)."),
+                  ("selftest-mutants", lambda d: f"`./check selftest-mutants --with-tests`: {d['mutants']} own mutants, {d['missed']} missed ({d['wall_s']} s).")):
+    try:
+        extra.append("- " + fmt(json.load(open(f'/verif/evidence/{name}.json'))))
+    except (FileNotFoundError, KeyError):
+        pass
+det += "\n\nOther self-tests (last run):\n\n" + "\n".join(extra)
 thr = []
 for p in ['C15', 'C16', 'C17', 'C18', 'C20']:
     try:
